@@ -113,6 +113,13 @@ def reset_paths(ctx, clr):
     if not per_path:
         return None, [], const_stores
     definite = set.intersection(*per_path)
+    # in-place zero fill of a container field counts as a reset of that field
+    from .common import elementwise_reset
+    adt = ctx.prog.adts.get(clr.impl_self)
+    if adt is not None:
+        for fl in adt["variants"][0]["fields"]:
+            if (fl["name"],) not in definite and elementwise_reset(ctx, clr, fl["name"]):
+                definite.add((fl["name"],))
     return definite, per_path, const_stores
 
 
@@ -230,6 +237,20 @@ def run_clear_rules(ctx, only_adt=None, floor=10):
                       "`%s` (written by %s) is reset on every path of clear()" % (pstr, ",".join(writers)),
                       "%s::clear() does not reset `%s`, which is modified by %s (%s:%d) — a cleared %s differs from a fresh one"
                       % (short, pstr, ",".join(writers), w["span"]["file"], w["span"]["line"], short))
+        # clear() must not change the configuration: a field that no other method writes may only be stored back unchanged
+        selfp_ = ("param", 1, "self")
+        for w in all_writes(ctx, clr):
+            if w["root"] != SELF or w["how"] != "store" or len(w["path"]) != 1 or w.get("via"):
+                continue
+            fld = w["path"][0]
+            if (fld,) in {p[:1] for p in mut} or fld in exempt or fld == "phantom":
+                continue
+            v = w.get("value")
+            same = v is not None and (v == ("field", selfp_, fld) or (v[0] == "adt" and not v[3]))
+            ctx.check(same, "R19-clear-keeps-config", "%s:%s" % (adt, fld), w["span"],
+                      "clear() stores `%s` back unchanged" % fld,
+                      "%s::clear() overwrites the configuration field `%s` with %s: the cleared structure no longer has the configuration it was built with"
+                      % (short, fld, fmt(v)[:160] if v else "?"))
         # constants agree with the constructor
         ctor = constructor_field_terms(ctx, adt)
         for path, vals in sorted(const_stores.items()):
